@@ -465,7 +465,13 @@ def make_dssr(rng, names):
         return params, None
     if r < 0.85:
         return {"models": [{"model": 1, "parameters": params}, {"model": 2, "parameters": {"pairs": [{"nt1": nm(), "nt2": nm(), "LW": "cWW"}]}}]}, None
-    return {"models": [{"model": 1, "parameters": {"pairs": []}}, {"model": 2, "parameters": params}]}, 2
+    if r < 0.93:
+        return {"models": [{"model": 1, "parameters": {"pairs": []}}, {"model": 2, "parameters": params}]}, 2
+    # model numbers that are not 1..n in list order (a selection from an ensemble; the requested one listed first or last)
+    other = {"pairs": [{"nt1": nm(), "nt2": nm(), "LW": "tHS"}]}
+    if r < 0.97:
+        return {"models": [{"model": 5, "parameters": other}, {"model": 2, "parameters": params}]}, 2
+    return {"models": [{"model": 2, "parameters": other}, {"model": 5, "parameters": params}]}, 5
 
 
 def run_case(case, rec):
